@@ -54,7 +54,7 @@ Spec == Init /\ [][Next]_vars
 WriteOrder == \A i \in 1..Len(Steps(sc)) :
                  Steps(sc)[i].file => \E j \in (i+1)..Len(Steps(sc)) : Steps(sc)[j].top
 \* an operation that writes anything ends by publishing it
-EndsWithCommit == Len(Steps(sc)) > 0 => Steps(sc)[Len(Steps(sc))].top
+EndsWithCommit == Len(Steps(sc)) > 0 => Steps(sc)[Len(Steps(sc))].l = "lmdb.commit.after top"
 \* every crash prefix is recoverable by the contract (the contract is satisfiable)
 Recoverable == phase \in {"recovered", "redelivered"} => RecoverOK(out)
 TypeOK == done \in 0..Len(Steps(sc)) /\ phase \in {"run", "complete", "crashed", "recovered", "redelivered"}
